@@ -88,6 +88,13 @@ func (f *timersFam) setup(w *World) {
 				maxP = ts.Timers[i].PeriodMs
 			}
 		}
+		// a callback that was already running when its timer was cancelled may take its time to finish:
+		// it is not a goroutine left behind
+		for _, sp := range ts.Timers {
+			if sp.CbSleepMs > 0 {
+				maxP += sp.CbSleepMs
+			}
+		}
 		simrt.Sleep(time.Duration(maxP+50) * time.Millisecond)
 		w.rec("", "end", "", 0)
 		f.alive = w.S.AliveTasks()
